@@ -675,8 +675,12 @@ def check_extras(run, cov, culprit_c2s, culprit_s2c=frozenset()):
     (value of the source at a few points); a raise is allowed (reported as information)."""
     sp, ca, S = _W["sp"], _W["ca"], _W["sym"]
     x, y = _W["x"], _W["y"]
-    pts = [(-2.5, 2.0), (0.5, -0.75), (1.5, 1.5), (3.5, 0.25), (-0.25, -3.0)]
+    pts = [(-2.5, 2.0), (0.5, -0.75), (1.5, 1.5), (3.5, 0.25), (-0.25, -3.0),
+           (0.0, 2.0), (2.5, 0.0), (0.0, 0.0), (0.0, -1.0), (1.0, 1.0), (-1.0, 1.0)]     # zeros, ties, unit arguments (sign(0), floor/ceil of integers, ...)
     cases = [(n, getattr(ca, n)(x)) for n in EXTRA_UN] + [(n, getattr(ca, n)(x, y)) for n in EXTRA_BIN]
+    cases += [("sign_of_difference", 3 + y * ca.sign(x - y)), ("sign_of_product", ca.sign(x * y) + ca.cos(x)), ("fabs_of_difference", ca.fabs(x - y)),
+              ("fmin", ca.fmin(x, y)), ("fmax", ca.fmax(x, y)), ("le", x <= y), ("ge_as_le", y <= x), ("eq", ca.eq(x, y)), ("ne", ca.ne(x, y)),
+              ("if_else", ca.if_else(x <= y, x + 1, y - 1))]
     cases += [("logic_not", ca.logic_not(x < y)), ("logic_and", ca.logic_and(x < y, y < 1)), ("logic_or", ca.logic_or(x < y, y < 1)), ("twice", 2 * x), ("pow_noninteger_const", x ** 2.5),
               ("pow_symbolic", ca.fabs(x) ** y), ("if_else_zero", ca.if_else(x < y, x, 0))]
     for name, e in cases:
@@ -692,6 +696,8 @@ def check_extras(run, cov, culprit_c2s, culprit_s2c=frozenset()):
             ref = float(f(xv, yv))
             if not math.isfinite(ref):
                 continue
+            if name == "atan2" and xv == 0.0 and yv == 0.0:
+                continue        # outside the mathematical domain: C returns 0, sympy leaves atan2(0, 0) undefined (not a conversion matter)
             run.count("evaluations")
             try:
                 g = sp_value(s, {sp.Symbol("x"): sp.Rational(xv), sp.Symbol("y"): sp.Rational(yv)})
